@@ -220,20 +220,15 @@ def circle_segment_from_three_points(x0, x1, x2):
     center = np.linalg.solve(A,b)
     radius = norm(pt2-center)
     v2 = pt2-center
-    v1 = pt1-center
     v0 = pt0-center
-    w0 = pt0-pt2
-    w1 = pt1-pt2
-    w2 = np.cross(w0, w1)
-    normal = np.cross(v0,v2)
-    len_v2 = norm(v2)
-    len_v0 = norm(v0)
-    theta  = np.arccos(np.dot(v2,v0) / len_v2 / len_v0)
-    if not np.all([np.sign(i)==np.sign(j) or abs(i-j) < state.controlpoint_absolute_tolerance for (i,j) in zip(w2,normal)]):
-        theta = 2*pi - theta
-        normal = -normal
+    # the triangle (pt0, pt1, pt2) is traversed counter-clockwise about 'normal', and so is the arc:
+    # measure the angle from v0 to v2 in that orientation, in the range (0, 2*pi)
+    unit_normal = normal / norm(normal)
+    theta = np.arctan2(np.dot(np.cross(v0,v2), unit_normal), np.dot(v0,v2))
+    if theta <= 0:
+        theta += 2*pi
 
-    result = circle_segment(theta, radius, center, np.cross(v0,v1), v0)
+    result = circle_segment(theta, radius, center, normal, v0)
 
     # spit out 2D curve if all input points were 2D, otherwise return 3D
     result.set_dimension(np.max([len(x0), len(x1), len(x2)]))
